@@ -498,13 +498,13 @@ func partialIfThenElse(env Env, v ast.NodeTypeIfThenElse) (ast.IsNode, error) {
 func partialIsIn(env Env, v ast.NodeTypeIsIn) (ast.IsNode, error) {
 	left, err := partial(env, v.Left)
 	if errors.Is(err, errVariable) {
-		return v, nil
+		return v, isInRefersToIgnored(env, v)
 	} else if err != nil {
 		return nil, err
 	}
 	lv, ok := left.(ast.NodeValue)
 	if !ok {
-		return v, nil
+		return v, isInRefersToIgnored(env, v)
 	}
 	if ent, ok := lv.Value.(types.EntityUID); ok && ent.Type != v.EntityType {
 		return ast.NodeValue{Value: types.False}, nil
@@ -518,6 +518,16 @@ func partialIsIn(env Env, v ast.NodeTypeIsIn) (ast.IsNode, error) {
 			return ast.NodeTypeIsIn{NodeTypeIs: ast.NodeTypeIs{Left: nodes[0], EntityType: v.EntityType}, Entity: nodes[1]}
 		},
 	)
+}
+
+// isInRefersToIgnored: while the type test of `e is T in x` is undecided the expression is kept as written, but a
+// reference of x to an ignored value must still be reported (the condition is dropped from a permit policy, a forbid
+// policy is dropped), as it is for every other operator.
+func isInRefersToIgnored(env Env, v ast.NodeTypeIsIn) error {
+	if _, err := partial(env, v.Entity); errors.Is(err, errIgnore) {
+		return err
+	}
+	return nil
 }
 
 func partialAnd(env Env, v ast.NodeTypeAnd) (ast.IsNode, error) {
